@@ -42,6 +42,7 @@ M = {
  "horizontal visibility graph keeps": ("C14", "VisibilityGraph([3,1,nan,1,3], missing_values=True, horizontal=True): the missing sample was linked to nodes 0, 1 and 3"),
  "records the new threshold": ("C01", "RecurrencePlot(sparse_rqa=True).set_fixed_threshold(t) left self.threshold unchanged: sequential RQA values stale"),
  "recomputes the missing-value indices": ("C01", "RecurrencePlot(missing_values=True): assigning a new embedding kept the old missing_value_indices"),
+ "no longer write into their array arguments": ("C06", "Data.rescale, GeoGrid.region_indices and GeoNetwork.latlon2cartesian modified their array arguments in place (finding #30)"),
  "vanishing Fourier amplitudes": ("C15", "refined_AAFT_surrogates returned NaN rows when a Fourier coefficient of the iterate was exactly zero (e.g. [1,-1,2,-2,3,-3,0,0])"),
 }
 fixed = []
@@ -63,9 +64,8 @@ known = [
  {"property": "C10", "match": r"^bounded:mutual_information/gauss-perfect-correlation$", "what": "Gaussian MI -0.5 log(1-r^2) is NaN when rounding gives |r| > 1 (exactly collinear columns)"},
  {"property": "C01", "match": r"^bounded:InterSystemRecurrenceNetwork\.set_fixed_(threshold|recurrence_rate)/fresh-twin$", "what": "InterSystemRecurrenceNetwork.set_fixed_threshold/_recurrence_rate called after construction replace rp_x/rp_y/crp_xy but not the adjacency: lengths 7 and 6, thresholds (1,1,1) then set_fixed_threshold((1.6,1.4,1.8)) gives n_links 56 vs 74 fresh"},
  {"property": "C01", "match": r"^bounded:HilbertClimateNetwork\.set_(threshold|link_density|non_local)/directed-fresh-twin$", "what": "HilbertClimateNetwork(directed=True): the inherited regenerating setters drop the phase-direction mask (22 links vs 11 fresh)"},
- {"property": "C01", "match": r"^bounded:ClimateNetwork\.del_link_attribute/derived-attribute-recomputed$", "what": "after del_link_attribute('inv_correlation_distance') the cached inv_correlation_distance() does not reinstall the link attribute and correlation_distance_weighted_closeness() raises"},
+ {"property": "C01", "match": r"^bounded:ClimateNetwork\.del_link_attribute/(derived-attribute-recomputed|cache-cleared|fresh-twin)$", "what": "after del_link_attribute('inv_correlation_distance') the cached inv_correlation_distance() does not reinstall the link attribute and correlation_distance_weighted_closeness() raises"},
  {"property": "C06", "match": r"^bounded:Surrogates\.test_threshold_significance/caller-array-unchanged$", "what": "Surrogates keeps the caller's array and test_threshold_significance normalises it in place (finding #11)"},
- {"property": "C06", "match": r"^bounded:(Data\.rescale|GeoGrid\.region_indices|GeoNetwork\.latlon2cartesian)/argument-unchanged$", "what": "Data.rescale, GeoGrid.region_indices and GeoNetwork.latlon2cartesian write into their array arguments (finding #30)"},
  {"property": "C06", "match": r"^bounded:Surrogates\.twin_surrogates/(no-interference|object-arrays-unchanged)$", "what": "Surrogates.twin_surrogates assigns self.embedding, which changes what twins() returns afterwards"},
  {"property": "C06", "match": r"^obligation:C06/MODIFIES/Surrogates\.(original_distribution|test_threshold_significance)$", "what": "Surrogates keeps the caller's array and test_threshold_significance/original_distribution normalise it in place (finding #11)"},
 ]
